@@ -10,7 +10,7 @@ streams (same payload, three observables)
   rt   as_text() succeeds, the text parses back to the same tree (the `# dns_resolver` comment aside), as_dict() of the
        parsed text vs the model's declarative dictionary `specDict`                                    (correspondence)
   chk  the property instance: well-formed -> no exception, valid text, same tree, dictionary == the EXPECTED dictionary
-       computed here from the abstract configuration alone (independent oracle)                        (property)
+       computed here from the abstract configuration alone (independent oracle), no `{ }` in the text  (property)
 """
 from __future__ import annotations
 
@@ -42,7 +42,7 @@ GEN = ["grammar", "profile_gen", "strlit"]
 STREAMS = {
     "gen": {"relevant": False, "desc": "C2Profile.from_beacon_config(BeaconConfig(block)).tree vs fromBeaconConfig; pretty values / uris of the library vs the line"},
     "rt": {"relevant": False, "desc": "as_text() succeeds / from_text(text).tree == tree (comment aside) / from_text(text).as_dict() vs specDict"},
-    "chk": {"relevant": True, "desc": "property instance: WellFormedCfg -> total, valid, faithful (as_dict == independent expected dictionary)"},
+    "chk": {"relevant": True, "desc": "property instance: WellFormedCfg -> total, valid, faithful (as_dict == independent expected dictionary), no empty `{ }` block in the text"},
 }
 TRUSTED = [
     "tools/harness/c13.py: generators, the independent TLV/program encoders, the independent expected dictionary and well-formedness "
@@ -562,13 +562,24 @@ def impl(stream, line):
         total = "exc" not in r
         valid = total and "text" in r and bool(r.get("reparse"))
         faithful = valid and r["dict"] == py_expected(ded, r["uris"])
-        return f"wf=T total={C.tf(total)} valid={C.tf(valid)} faithful={C.tf(faithful)}"
+        noempty = total and "text" in r and not has_empty_block(r["text"])
+        return f"wf=T total={C.tf(total)} valid={C.tf(valid)} faithful={C.tf(faithful)} noempty={C.tf(noempty)}"
     raise RuntimeError("unknown stream " + stream)
 
 
 # ----------------------------------------------------------------------------------------------------------------
 # the property, stated independently: well-formed configurations and the expected dictionary
 # ----------------------------------------------------------------------------------------------------------------
+_LITERAL = re.compile(r'"(?:[^"\\]|\\.)*"', re.S)
+_EMPTY_BLOCK = re.compile(r"\{\s*\}")
+
+
+def has_empty_block(text: str) -> bool:
+    """`keyword { }` anywhere in the profile text (string literals blanked first).  The `# dns_resolver "…";` line counts as content:
+    a dns-beacon block that only states the resolver is written (and re-parses as an empty block, the statement being a comment)"""
+    return bool(_EMPTY_BLOCK.search(_LITERAL.sub('""', text)))
+
+
 def esc_bytes(bs: bytes) -> str:
     """a byte string as it is written between the quotes of a profile literal"""
     out = []
@@ -806,7 +817,7 @@ def oracle(stream, line, out):
         return out.startswith("ok text=T reparse=T") if wf else None
     if stream == "chk":
         if wf:
-            return out == "wf=T total=T valid=T faithful=T"
+            return out == "wf=T total=T valid=T faithful=T noempty=T"
         kf = kf_class(ded, uris)
         if kf is not None and kf in _KNOWN_IDS:
             return not kf_violated(line, kf, ded, uris)
